@@ -237,6 +237,26 @@ def spec_excluded(pats, rel):
     return res
 
 
+def ref_excluded(ctx, drv, pats, rels):
+    """The files among `rels` (root-relative) that the pattern list excludes, by the Lean reference of gitignore(5)
+    (Spec/GitIgnore.lean, driver op `gitignore`: the last matching pattern decides, an excluded parent directory wins);
+    the generator's own reading `spec_excluded` is only the fall-back when the driver does not build, and is
+    cross-checked against the reference (a disagreement is a note about the generator, not about the code)."""
+    mine = [f for f in rels if spec_excluded(pats, f)]
+    if drv is None or not rels:
+        return mine
+    try:
+        r = drv.ask({"op": "gitignore", "cases": [{"patterns": list(pats), "paths": [{"p": f, "d": False} for f in rels]}]})[0]
+        ref = [f for f, ign in zip(rels, r) if ign]
+    except Exception as e:  # noqa
+        ctx.notes.append(f"driver op gitignore not answered ({type(e).__name__}); generator's own prediction used")
+        return mine
+    ctx.dist["expected_members_from_lean_gitignore"] += 1
+    if ref != mine:
+        ctx.notes.append(f"generator's prediction of the excluded set {mine} differs from the Lean gitignore reference {ref} for {pats}")
+    return ref
+
+
 def patterns_for(rng, subset, allsrc, allpaths):
     """exclude patterns (as `/path`, `path`, basename, `*.ext`, `dir/`) matching exactly `subset` among `allpaths`"""
     subset = set(subset)
@@ -601,13 +621,14 @@ def check_case(ctx, drv, case, exclude_lists, origin, effect_runs=6):
         if outside_abs:
             check_outside(ctx, case, att0, sm0, lang_classes(st0), d)
         effect_cache = {}
+        alias_done = False
         rep["base"] = {"implementation": {"members": rel(members0, root), "setmap": show(sm0),
                                           "files_parsed_in_another_language_than_their_extension": {os.path.relpath(k, d): v for k, v in mis0.items()}},
                        "model": None if m0 is None else {"setmap": m0.get("setmap"), "mixing_events": m0.get("mixed"),
                                                          "equals_cache_free_reference": m0.get("ref_agrees"), "exc": m0.get("exc")}}
         for li, (pats, intended) in enumerate(exclude_lists):
             c = {"files": case["files"], "platforms": case["platforms"], "excludes": pats, "intended": sorted(intended)}
-            X = sorted(os.path.join(root, f) for f in allsrc if spec_excluded(pats, f))
+            X = sorted(os.path.join(root, f) for f in ref_excluded(ctx, drv, pats, allsrc))
             expected = [f for f in exp0 if f not in X]
             info = {}
             try:
@@ -706,6 +727,13 @@ def check_case(ctx, drv, case, exclude_lists, origin, effect_runs=6):
             if bad:
                 r = ctx.classify(c_info, "; ".join(bad[:3]), [("D19", d19_pred(info))])
                 ctx.dist["with/without differ: " + ("known finding D19" if r == "known" else "VIOLATION")] += 1
+            elif not alias_done and (X or outside_abs):
+                # once per case: in-tree symbolic links to an excluded file and to a file outside the root
+                import time
+
+                t_a = time.time()
+                alias_done = check_alias(ctx, drv, c, d, root, cfg, pats, X, outside_abs, expected, membersE, smE, attE, cbE, stE)
+                ctx.extra["seconds_in_alias_checks"] = round(ctx.extra.get("seconds_in_alias_checks", 0.0) + time.time() - t_a, 3)
             # --- model
             mE = None
             if drv is not None:
@@ -729,6 +757,60 @@ def check_case(ctx, drv, case, exclude_lists, origin, effect_runs=6):
                                                                    "mixing_events": mE.get("mixed"), "equals_cache_free_reference": mE.get("ref_agrees")},
                                  "implementation_vs_spec": bad})
     return rep
+
+
+def check_alias(ctx, drv, c, d, root, cfg, pats, X, outside_abs, expected, membersE, smE, attE, cbE, stE):
+    """An excluded file, or a file outside the root, stays excluded / outside when a symbolic link inside the root
+    points at it: the link names no other file, so "never contribute lines to any report" is about it too.  The link is
+    placed where no pattern matches its own path (decided by the Lean gitignore reference), is neither compiled nor
+    included, so members, setmap, file tree and every attribution must be exactly those of the analysis without the
+    link.  Deterministic (no random draw): first excluded file, first outside file, first free name."""
+    dirs = list(dict.fromkeys(([os.path.dirname(expected[0])] if expected else []) + [root]))
+    links = []
+    for k, tgt in enumerate((X[:1] if X else []) + outside_abs[:1]):
+        ext = os.path.splitext(tgt)[1]
+        names = [f"zz_alias{k}{e}" for e in dict.fromkeys(([ext] if ext in SRC_EXT else []) + [".h", ".hpp", ".c"])]
+        cands = [os.path.join(dd, n) for dd in dirs for n in names]
+        free = [ln for ln in cands if not ref_excluded(ctx, drv, pats, [os.path.relpath(ln, root)]) and not os.path.lexists(ln)]
+        if free:
+            links.append((free[0], tgt))
+    if not links:
+        return False
+    desc = [f"{os.path.relpath(ln, d)} -> {os.path.relpath(t, d)} ({'outside the root' if t in outside_abs else 'excluded'})" for ln, t in links]
+    ca = dict(c, alias=[[os.path.relpath(ln, d), os.path.relpath(t, d)] for ln, t in links])
+    try:
+        for ln, t in links:
+            os.symlink(os.path.relpath(t, os.path.dirname(ln)), ln)
+        ctx.count(key="alias_links_to_excluded_or_outside")
+        for _, t in links:
+            ctx.dist["alias_target:" + ("outside" if t in outside_abs else "excluded")] += 1
+        try:
+            cbL, stL = run_find(root, cfg, pats)
+            membersL = sorted(cbL)
+            smL = norm_setmap(stL.get_setmap(cbL))
+            attL = nodes_of(stL)
+            namesL = sorted(r[6] for r in tree_report(cbL, stL) if not r[5])
+            namesE = sorted(r[6] for r in tree_report(cbE, stE) if not r[5])
+        except Exception as e:
+            ctx.violation(f"with the in-tree symbolic links {desc} and -x {pats} the analysis raises {type(e).__name__}: {e}", ca)
+            return True
+        bad = []
+        if membersL != membersE:
+            bad.append(f"code base lists {rel(sorted(set(membersL) - set(membersE)), root)} in addition")
+        if drop_zero(smL) != drop_zero(smE):
+            bad.append(f"setmap {show(smL)} != setmap without the links {show(smE)} (lines of excluded / outside files counted)")
+        if namesL != namesE:
+            bad.append(f"file tree lists {namesL}, without the links {namesE}")
+        changed = [os.path.relpath(f, d) for f in expected if attL.get(f) != attE.get(f)]
+        if changed:
+            bad.append(f"attribution of {changed} changes")
+        if bad:
+            ctx.violation(f"in-tree symbolic links {desc} under -x {pats}: " + "; ".join(bad[:3]), ca)
+    finally:
+        for ln, _ in links:
+            if os.path.islink(ln):
+                os.unlink(ln)
+    return True
 
 
 def move_inside(case):
@@ -888,12 +970,14 @@ def check_cli(ctx, drv, case, pats, origin):
         write_toml(root, case, pats, "analysis_x.toml")
         write_toml(root, case, second, "analysis_mix.toml")
         allsrc = source_files(case)
-        X = [f for f in allsrc if spec_excluded(pats, f)]
+        X = ref_excluded(ctx, drv, pats, allsrc)
         expected = [f for f in allsrc if f not in X]
         try:
             cfg = load_config(root, case)
             cbE, stE = run_find(root, cfg, pats)
             smE = norm_setmap(stE.get_setmap(cbE))
+            cb0, st0 = run_find(root, cfg, [])
+            sm0 = norm_setmap(st0.get_setmap(cb0))
         except Exception as e:
             ctx.count(key="cli_case_not_analysable")
             rep["exc"] = str(e)
@@ -947,6 +1031,14 @@ def check_cli(ctx, drv, case, pats, origin):
             ctx.violation(f"cbi-tree -x {pats} lists files {tnames}, expected {sorted(os.path.basename(f) for f in expected)}", c)
         if ta[0] == 0 and trows and trows[0][1].isdigit() and int(trows[0][1]) != sum(smE.values()):
             ctx.violation(f"cbi-tree -x {pats}: root SLOC {trows[0][1]} != {sum(smE.values())}", c)
+        # ---- where the analysis file lives x several runs in one interpreter
+        if a[0] == 0 and ta[0] == 0:
+            import time
+
+            t_s = time.time()
+            check_sessions(ctx, c, rep, d, root, case, pats, first, second, {"codebasin": a, "codebasin.tree": ta}, run, same,
+                           allsrc, expected, sm0, smE)
+            ctx.extra["seconds_in_sessions"] = round(ctx.extra.get("seconds_in_sessions", 0.0) + time.time() - t_s, 3)
         # ---- cbi-cov (no analysis file: -x against the in-process CodeBase with the same patterns)
         p0 = next(iter(case["platforms"]), None)
         if p0 is not None:
@@ -1029,6 +1121,118 @@ def check_cli(ctx, drv, case, pats, origin):
                 if os.path.exists(os.path.join(root, x)):
                     os.unlink(os.path.join(root, x))
     return rep
+
+
+# --------------------------------------------------------------------------
+# CLI level: the analysis file's location and the history of the process do not matter
+# --------------------------------------------------------------------------
+SESSION = os.path.join(os.path.dirname(os.path.abspath(G.__file__)), "clisession.py")
+SUBDIR, SUBDIR2, OUTDIR = "zz_cfg", "zz_cfg/ci", "cfg_outside"
+
+
+def session_plan(d, pats, first):
+    """(label, argv tail, expects the exclusion?) - the same for both tools.  The analysis files (plain = no [codebase]
+    section, x = all patterns in the file, mix = second half in the file + first half with -x) are stored in the root,
+    in a sub-directory, in a sub-sub-directory and outside the root (absolute and ../ spelling); runs without any
+    pattern are interleaved so that every run with patterns in the analysis file is followed by one that has none."""
+    out_abs = os.path.join(d, OUTDIR)
+    return [
+        ("plain@root #1", ["analysis.toml"], False),
+        ("file@root", ["analysis_x.toml"], True),
+        ("plain@root #2 (after file@root)", ["analysis.toml"], False),
+        ("-x@root", xargs(pats) + ["analysis.toml"], True),
+        ("file@sub-directory", [SUBDIR + "/analysis_x.toml"], True),
+        ("plain@sub-directory", [SUBDIR + "/analysis.toml"], False),
+        ("split@sub-sub-directory", xargs(first) + [SUBDIR2 + "/analysis_mix.toml"], True),
+        ("-x with plain@sub-directory", xargs(pats) + [SUBDIR + "/analysis.toml"], True),
+        ("file@outside, absolute path", [os.path.join(out_abs, "analysis_x.toml")], True),
+        ("split@outside, ../ path", xargs(first) + ["../" + OUTDIR + "/analysis_mix.toml"], True),
+        ("plain@root #3 (last)", ["analysis.toml"], False),
+    ]
+
+
+def check_sessions(ctx, c, rep, d, root, case, pats, first, second, fresh_x, run, same, allsrc, expected, sm0, smE):
+    """`-x P` == `[codebase] exclude = [P]` == split, wherever the analysis file is stored and whatever the same
+    interpreter ran before.  Expectations, all independent of the runs judged:
+      * a run whose effective pattern list is `pats`  == the fresh-process run `-x pats analysis.toml` (byte for byte);
+      * a run without any pattern == the fresh-process run `analysis.toml`, whose content is itself judged against the
+        member set of the Lean gitignore reference for the EMPTY list (every source file) and the in-process setmap.
+    On a difference the same argv is run once more in a fresh process to tell `depends on the location of the analysis
+    file` (fresh run differs too) from `depends on what the process ran before` (fresh run agrees)."""
+    import subprocess
+    import sys
+
+    for sub in (SUBDIR, SUBDIR2):
+        os.makedirs(os.path.join(root, sub), exist_ok=True)
+    out_abs = os.path.join(d, OUTDIR)
+    os.makedirs(out_abs, exist_ok=True)
+    for where in (os.path.join(root, SUBDIR), os.path.join(root, SUBDIR2), out_abs):
+        write_toml(where, case, None, "analysis.toml")
+        write_toml(where, case, pats, "analysis_x.toml")
+        write_toml(where, case, second, "analysis_mix.toml")
+    plan = session_plan(d, pats, first)
+    head = {"codebasin": ["-R", "summary", "-R", "duplicates"], "codebasin.tree": []}
+    # fresh-process references
+    fresh_0 = {mod: run(mod, head[mod] + ["analysis.toml"]) for mod in head}
+    srep = rep.setdefault("sessions", {})
+    for mod in head:
+        f0 = fresh_0[mod]
+        ok0 = f0[0] == 0
+        if ok0 and mod == "codebasin":
+            rows, total, _ = G.parse_summary(f0[1])
+            ok0 = drop_zero({k: v[0] for k, v in rows.items()}) == drop_zero(sm0) and total == sum(sm0.values())
+        elif ok0:
+            trows = G.parse_tree(f0[1])
+            ok0 = (sorted(r[6] for r in trows if not r[5]) == sorted(os.path.basename(f) for f in allsrc)
+                   and (not trows or not trows[0][1].isdigit() or int(trows[0][1]) == sum(sm0.values())))
+        if not ok0:
+            ctx.violation(f"{mod} analysis.toml (no exclude pattern at all): exit {f0[0]}, output does not show every source file under the root "
+                          f"{allsrc} with the lines of the in-process analysis {show(sm0)}: {f0[1][-300:]}", c)
+            return
+    steps = [{"mod": mod, "argv": head[mod] + argv, "cwd": root} for mod in head for _, argv, _ in plan]
+    sj, rj = os.path.join(d, "session_steps.json"), os.path.join(d, "session_results.json")
+    with open(sj, "w") as f:
+        json.dump(steps, f)
+    env = dict(os.environ, PYTHONPATH=str(core.REPO), MPLBACKEND="Agg")
+    env.setdefault("PYTHONHASHSEED", "0")
+    p = subprocess.run([sys.executable, SESSION, sj, rj], cwd=root, env=env, capture_output=True, text=True, timeout=600)
+    if p.returncode != 0 or not os.path.exists(rj):
+        ctx.notes.append(f"in-process session did not finish (exit {p.returncode}): {p.stderr[-300:]}")
+        ctx.dist["session_failed_to_run"] += 1
+        return
+    results = json.load(open(rj))
+    k = 0
+    for mod in head:
+        srep[mod] = []
+        for label, argv, excl in plan:
+            r = results[k]
+            k += 1
+            got = (r["rc"], norm(r["out"], d), norm(r["err"], d), norm(r["log"], d))
+            want = fresh_x[mod] if excl else fresh_0[mod]
+            ctx.count(key="session_run:" + label.split(" #")[0].split(" (")[0])
+            ctx.dist["session_runs:" + mod] += 1
+            ok = same(got, want)
+            srep[mod].append({"run": label, "argv": argv, "exit": got[0], "equals_fresh_reference": ok})
+            if ok:
+                continue
+            # diagnosis: the very same command in a fresh process
+            again = run(mod, head[mod] + argv)
+            if same(again, want):
+                why = ("depends on what the same process ran before (the same command in a fresh process gives the expected output); "
+                       "earlier runs of the session: " + ", ".join(l for l, _, _ in plan[:plan.index((label, argv, excl))]))
+            else:
+                why = "the same command in a fresh process differs too: the result depends on where the analysis file is stored / how the patterns are given"
+            want_files = expected if excl else allsrc
+            shown = ""
+            if mod == "codebasin.tree":
+                shown = f"; lists files {sorted(r_[6] for r_ in G.parse_tree(got[1]) if not r_[5])}, expected {sorted(os.path.basename(f) for f in want_files)}"
+            else:
+                rows, total, _ = G.parse_summary(got[1])
+                shown = f"; summary {show({k_: v[0] for k_, v in rows.items()})} total {total}, expected {show(smE if excl else sm0)}"
+            ctx.violation(f"{mod} {' '.join(argv)} [{label}] (exit {got[0]}) differs from "
+                          + (f"-x {pats} analysis.toml" if excl else "analysis.toml (no pattern)") + f" in a fresh process{shown}; {why}", c)
+            return
+
 
 
 # --------------------------------------------------------------------------
@@ -1115,11 +1319,23 @@ def run(ctx, drv):
                 "or (key 'outside-tu') a code base in which dropping the commands of the out-of-tree translation units changes the "
                 "attribution of a file under the root. Every case with files outside the root is also analysed with those files moved "
                 "inside (with and without the pattern /zz_outside/) and, for the CLI cases, through codebasin / cbi-cov; the loader's "
-                "result is compared with one command per existing compiled file and with the Lean model of load_database (op dbload).")
+                "result is compared with one command per existing compiled file and with the Lean model of load_database (op dbload). "
+                "The excluded set of every pattern list is computed by the Lean reference of gitignore(5) (driver op gitignore). "
+                "Once per case with a non-empty excluded set or outside files: in-tree symbolic links to the first excluded file and "
+                "to the first outside file, placed where no pattern matches the link itself, must change nothing (members, setmap, "
+                "file tree, attribution). CLI cases: besides -x / analysis file / split in fresh processes from the root, the two tools "
+                "are run 11 times each in ONE interpreter (harness/gen/clisession.py: main() with sys.argv, as the console scripts do) "
+                "with the analysis file in the root, in a sub-directory, a sub-sub-directory and outside the root (absolute and ../ path), "
+                "runs without any pattern interleaved; every run with the effective list P must equal the fresh-process `-x P analysis.toml`, "
+                "every run without pattern the fresh-process `analysis.toml` (itself judged against the Lean member set of the empty list "
+                "and the in-process setmap).")
     ctx.assumptions += [
-        "pattern semantics is C09's subject: the generator only uses /path, path, basename, *.ext, dir/ patterns and predicts the matched set itself",
+        "pattern semantics is C09's subject: the generator only uses /path, path, basename, *.ext, dir/ patterns (and ! re-inclusions); the matched set "
+        "is computed by the Lean gitignore reference (Spec/GitIgnore, proved laws in Props/C09) and cross-checked with the generator's own reading",
         "code bases whose analysis already fails without exclusion are skipped (counted in the distribution)",
-        "symbolic links are not generated (C15); one code-base directory (cwd)",
+        "symbolic links: only file links from inside the root to an excluded / outside file, never compiled or included (aliases of members, directory links and loops are C15/C09); one code-base directory (cwd)",
+        "in-process sessions: between two runs the runner removes cbi.log and detaches the logging handlers the previous run attached to the `codebasin` logger; "
+        "output is captured at file-descriptor level; nothing else in the process is reset; cbi-cov (no analysis file) is not part of the sessions",
         "out-of-tree translation units are compiled with gcc only (one pass, one configuration entry per command); argument parsing is C11's subject",
         "the Lean model of `find` starts from the loaded configuration; the loader step is tied in through C13's model/spec (op dbload) and this file's spec_commands",
         "cbi-cov has no analysis file: its -x is compared with an in-process CodeBase given the same patterns",
